@@ -71,6 +71,8 @@ type comp struct {
 	cancel   context.CancelFunc
 	faulted  []string // root-relative paths that received an injected fault
 	opsSeen  []string
+	// hookExtra, if set, is called for every counted operation.
+	hookExtra func(activity, op string, n int)
 }
 
 func newComp(s *simkit.Sim, plan *simkit.Plan) *comp {
@@ -131,6 +133,9 @@ func (c *comp) hook(op string, dirfd int, path string, dirfd2 int, path2 string)
 	n := c.count[activity]
 	if activity == "transition" || activity == "scan" {
 		c.opsSeen = append(c.opsSeen, op)
+	}
+	if c.hookExtra != nil {
+		c.hookExtra(activity, op, n)
 	}
 	if at, ok := c.cancelAt[activity]; ok && at == n && c.cancel != nil {
 		c.cancel()
